@@ -12,7 +12,8 @@ if "--tier" in sys.argv:
     tier = sys.argv[sys.argv.index("--tier") + 1]
 if "--only" in sys.argv:
     extra = ["--only", sys.argv[sys.argv.index("--only") + 1]]
-d = os.path.join("/verif/seeded", name)
+ROOT = os.path.dirname(os.path.dirname(os.path.abspath(__file__)))
+d = os.path.join(ROOT, "seeded", name)
 meta = json.load(open(os.path.join(d, "meta.json")))
 pid = meta["property"]
 dirty = subprocess.run(["git", "-C", "/repo", "status", "--porcelain", "--untracked-files=no"], capture_output=True, text=True).stdout.strip()
@@ -20,8 +21,8 @@ assert not dirty, "/repo has uncommitted changes"
 subprocess.run(["git", "-C", "/repo", "apply", os.path.join(d, "patch.diff")], check=True)
 t0 = time.time()
 try:
-    p = subprocess.run(["python3", "/verif/run.py", pid, "--tier", tier] + extra, cwd="/verif", capture_output=True, text=True,
-                       env=dict(os.environ, VERIF_EVIDENCE_DIR="/verif/.cache/seeded-evidence"))
+    p = subprocess.run(["python3", os.path.join(ROOT, "run.py"), pid, "--tier", tier] + extra, cwd=ROOT, capture_output=True, text=True,
+                       env=dict(os.environ, VERIF_EVIDENCE_DIR=os.path.join(ROOT, ".cache", "seeded-evidence")))
 finally:
     subprocess.run(["git", "-C", "/repo", "checkout", "--", "."], check=True)
 out = p.stdout + p.stderr
